@@ -31,6 +31,13 @@ proved over the translation of server/protocol.py.  This translator regenerates,
                          `factories`: one row per create_server call (site, enclosing condition and branch, the
                          callables from the factory down to the application protocol, the source text of the arguments of
                          its constructor); `chain_var`, `list_var`: the names of the two locals.
+  locations (C17)        server/location.py: HandlerType (enum), LocationConfig (record), __post_init__ over the record's fields
+                         (gen_location_post_init; pathlib's exists / is_dir are oracle arguments).  server/handler.py,
+                         server/proxy.py: `Inductive handler`, one constructor per class with its __init__ arguments.
+                         server/config.py: ServerConfig.get_location_router with the nested create_handler (a local
+                         function returning `res handler`), the loop, `router.add_route(..)` = MwGen.gen_router_add_route
+                         (py2coq_mw.py's translation of Router.add_route; `Router()` = no routes, no default handler:
+                         checked), `h.handle` = `handle_of h` for an argument handle_of.
   __main__.py            the block that ends with the (only) call of start_server, from the first statement that binds one
                          of the arguments feeding a wiring parameter:  gen_serve_args : py_ServerConfig -> <closure
                          variables> -> res (<the wiring parameters of start_server, in signature order>).
@@ -50,6 +57,11 @@ General rules (on top of py2coq.Fn, same fail-closed discipline: anything else r
                constructor calls of the generated records (missing arguments from constant defaults; an unknown keyword is
                the TypeError CPython raises), middleware / chain / protocol constructors, `d.get(k)`, `d.get(k, x)`,
                `d[k]` (hoisted: KeyError) on a dict entry with a typed view, calls of the generated config methods.
+  more rules   nested `def` with annotated parameters (closure; returns res), `assert` (AssertionError), `raise E(msg)` with
+               a safe message, `if X is None: <raise/return>` narrows X afterwards, narrowing of `x.f` for a record x,
+               enum members and ==, `a or b` on Optional int / int, `+` on str, startswith, isinstance(x, str) / Path(x) on
+               `Path | str`, `p.exists()` on an Optional path (AttributeError when None; hoisted like d[k]), methods that
+               assign fields of self (fields as locals, the record rebuilt at the end), string annotations.
   opaque       a local that the slice reads but that is assigned before it in a way outside the subset (`router`, the two
                TLS contexts) is an INPUT of abstract type T_<name> (Optional if one of its assignments is None); an
                attribute of such a value (`router.route`) is a function argument attr_<a> : T_<name> -> A_<a>.
@@ -78,6 +90,8 @@ TRUSTED TABLES (everything else is read from the AST)
   TRUTHY/STR_OF  `Path | str` (certfile, keyfile) -> WiringGlue.pathlike: a Path is true, a str iff non-empty; str(None)
                is "None"; a first binding `x = None` without annotation gets Optional of the type of the builder results
                assigned to x later.
+  HANDLERS, KEPT_FIELDS, PATH_METHODS, ROUTER_*  the handler classes, what ProxyHandler keeps of its arguments (checked), the
+               pathlib oracles, where Router / RouteType live (their translation is MwGen's).
   Not modelled: exceptions of the statements outside the slices (then no server is started), the state inside the
   middleware objects (an object is its class and constructor arguments), every keyword of the start_server call that does
   not feed a wiring parameter (must be a safe expression; dropped)."""
@@ -99,12 +113,24 @@ PROTO = {"GeminiServerProtocol": ("server/protocol.py", "PGemini", ["request_han
          "TLSServerProtocol": ("server/tls_protocol.py", "PTls", ["inner_protocol_factory", "ssl_context"], [None, "X"])}
 APP_PROTO = "GeminiServerProtocol"
 ANNOT = {"dict[str, Any]": "path_entry", "set[str]": ("list", "str"), "list[Middleware]": ("list", "mwkind"),
-         "Path | str": "pathlike", "ssl.SSLContext": "T_sslctx"}
+         "Path | str": "pathlike", "ssl.SSLContext": "T_sslctx", "Path": "pathlike", "RequestHandler": "handler", "Router": "(routes REQ RX)"}
 # the TLS context builders: oracle arguments of gen_boot that RETURN a context (checked: every `return` of the def returns
 # a constructed object); what they set on it is tlsconf.py's business.  name -> (file, abstract result type)
 ORACLES = {"create_server_context": ("security/tls.py", "T_sslctx"), "_create_self_signed_context": (SERVER_FILE, "T_sslctx"),
            "create_pyopenssl_server_context": ("security/pyopenssl_tls.py", "T_pyctx"),
            "_create_self_signed_pyopenssl_context": (SERVER_FILE, "T_pyctx")}
+# C17: the location router.  Handler classes (constructor = one constructor of `Inductive handler`), the Router of
+# Gen/MwGen.v (py2coq_mw.py: py_Route, gen_router_add_route), enums, oracles for pathlib methods.
+LOCATION_FILE, LOCATION_CLASS, LOCATION_ENUM = "server/location.py", "LocationConfig", "HandlerType"
+HANDLERS = {"StaticFileHandler": "server/handler.py", "ProxyHandler": "server/proxy.py"}
+ROUTER_FILE, ROUTER_CLASS, ROUTE_ENUM = "server/router.py", "Router", "RouteType"
+ROUTES_T, HANDLE_T = "(routes REQ RX)", ("fun", "REQ", "ServerProto.resp")
+ENUM_PREFIX = {ROUTE_ENUM: "MwGen."}          # members of RouteType are MwGen's
+PATH_METHODS = {"exists": "path_exists", "is_dir": "path_is_dir"}      # oracle arguments pathlike -> bool
+TYPE_ONLY_IMPORTS = {"RequestHandler"}
+# what a handler object keeps of its constructor arguments (compared with the __init__ of the class: each attribute assigned
+# exactly once in the class, with this right-hand side) - the form Equiv.upstream_url_tie / EquivWiring.handler_upstream_url use
+KEPT_FIELDS = {"ProxyHandler": {"upstream": "upstream.rstrip('/')", "prefix": "prefix", "strip_prefix": "strip_prefix", "timeout": "timeout"}}
 TRUTHY = {"pathlike": "pathlike_truthy"}      # WiringGlue: a Path is always true, a str iff non-empty
 STR_OF = {"pathlike": "pathlike_str"}         # str(x)
 DICT_VIEWS = {"path_entry": {"prefix": ("pe_prefix", "str"), "require_cert": ("pe_require_cert", "bool"),
@@ -116,6 +142,14 @@ COQ_RESERVED = {"end", "fun", "fix", "let", "match", "then", "forall", "exists",
                 "where", "struct", "return", "as", "in", "if", "else", "with", "for", "tt", "true", "false", "None", "Some", "Ok", "Err",
                 "nil", "cons", "fst", "snd", "map", "unit", "bool", "list", "option", "str", "effect", "proto", "mwkind"}
 ASPEC = {"annot": ANNOT, "int": "Z"}
+
+def atype(g, a):
+    """type of an annotation; a string annotation ("Router | None") is parsed first"""
+    if a is None: return None
+    if isinstance(a, ast.Constant) and isinstance(a.value, str):
+        try: a = ast.parse(a.value, mode="eval").body
+        except SyntaxError: return None
+    return annot_type(a, ASPEC, g.ctx)
 
 class Raises(Untranslatable):
     """an exception can escape a function translated as total: translate it again with a `res` result"""
@@ -188,6 +222,8 @@ class G:
         self.records = {}      # dataclass name -> dict(fields, defaults (AST))
         self.mw = {}           # middleware class -> dict(params, defaults, sync, asyncm)
         self.methods = {}      # (class, method) -> dict(name, ret, may_raise)
+        self.handlers = {}     # handler class -> dict(params, defaults)
+        self.add_route_sig = None
         self.trees = {}
     def tree(self, rel):
         if rel not in self.trees: self.trees[rel] = ast.parse(open(os.path.join(SRC, rel)).read(), rel)
@@ -213,6 +249,7 @@ class W(Fn):
         self.last_proto = None
         self.used = set()           # names the translated text reads
         self.oracles = {}           # builder name -> (argument types, result type)
+        self.extra = []             # further oracle / semantic arguments used: names from EXTRA_PARAMS
 
     def fresh(self, base):
         self.tmp += 1
@@ -251,7 +288,15 @@ class W(Fn):
             if e.id in self.env: return e.id, self.env[e.id]
             bad(e, "unknown name")
         if isinstance(e, ast.Attribute):
+            key = dotted(e)
+            if key is not None and key in self.narrow: return self.narrow[key]
+            if isinstance(e.value, ast.Name) and e.value.id in self.g.ctx.enums and e.value.id not in self.env:
+                if e.attr not in self.g.ctx.enums[e.value.id]: bad(e, "unknown enum member")
+                return "%s%s_%s" % (ENUM_PREFIX.get(e.value.id, ""), e.value.id, e.attr), ("enum", e.value.id)
             b, bt = self.tx(e.value)
+            if bt == "handler" and e.attr == "handle":
+                self.need("handle_of")
+                return "(handle_of %s)" % b, HANDLE_T
             if isinstance(bt, tuple) and bt[0] == "obj":
                 for f, t in self.g.ctx.classes[bt[1]]["fields"]:
                     if f == e.attr: return "(%s_%s %s)" % (bt[1], f, b), t
@@ -270,9 +315,25 @@ class W(Fn):
                 if not is_opt(t): bad(e, "`is None` on a value that is not Optional")
                 r = "(match %s with None => true | Some _ => false end)" % x
                 return (r if isinstance(e.ops[0], ast.Is) else "(negb %s)" % r), "bool"
+            if len(e.ops) == 1 and isinstance(e.ops[0], (ast.Eq, ast.NotEq)):
+                (a, ta), (b, tb) = self.tx(e.left), self.tx(e.comparators[0])
+                if isinstance(ta, tuple) and ta[0] == "enum" and ta == tb:
+                    r = "(%spy_%s_eqb %s %s)" % (ENUM_PREFIX.get(ta[1], ""), ta[1], a, b)
+                    return (r if isinstance(e.ops[0], ast.Eq) else "(negb %s)" % r), "bool"
             return Fn.expr(self, e), "bool"
+        if isinstance(e, ast.BoolOp) and isinstance(e.op, ast.Or) and len(e.values) == 2:
+            # `a or b` on values: a if it is true, else b   (Optional int / int: None and 0 are false)
+            (a, ta), (b, tb) = self.tx(e.values[0]), self.tx(e.values[1])
+            if ta == ("opt", "Z") and tb == "Z":
+                return "(match %s with Some v__ => if Z.eqb v__ 0 then %s else v__ | None => %s end)" % (a, b, b), "Z"
+            if not (ta == "bool" and tb == "bool") and not (self.is_condition(e.values[0]) and self.is_condition(e.values[1])):
+                bad(e, "`or` of values of types %s and %s" % (ta, tb))
         if isinstance(e, ast.BoolOp) or (isinstance(e, ast.UnaryOp) and isinstance(e.op, ast.Not)):
             return self.cond(e), "bool"
+        if isinstance(e, ast.BinOp) and isinstance(e.op, ast.Add):
+            (a, ta), (b, tb) = self.tx(e.left), self.tx(e.right)
+            if ta == "str" and tb == "str": return "(%s ++ %s)" % (a, b), "str"
+            bad(e, "+ at types %s, %s" % (ta, tb))
         if isinstance(e, ast.IfExp): return self.ifexp(e)
         if isinstance(e, ast.List):
             if not e.elts: return "[]", ("list", "?")
@@ -289,6 +350,13 @@ class W(Fn):
         if isinstance(e, ast.Call): return self.call(e)
         if isinstance(e, ast.Subscript): bad(e, "subscript (only d[\"key\"] on a typed dict entry, as a whole operand)")
         bad(e, "expression")
+
+    def is_condition(self, e):
+        """an operand of and/or/not that is used for its truth value only when the whole expression is (conservative)"""
+        return isinstance(e, (ast.Compare, ast.BoolOp)) or (isinstance(e, ast.UnaryOp) and isinstance(e.op, ast.Not))
+
+    def need(self, name):
+        if name not in self.extra: self.extra.append(name)
 
     def ifexp(self, e):
         box = {}
@@ -356,6 +424,30 @@ class W(Fn):
                 if is_opt(t) and t[1] in STR_OF:      # str(None) is the text "None"
                     return "(match %s with Some v__ => %s v__ | None => %s end)" % (x, STR_OF[t[1]], coq_str("None")), "str"
                 bad(e, "str() of a value of type %s" % (t,))
+            if f.id == "isinstance" and len(e.args) == 2 and not e.keywords and isinstance(e.args[1], ast.Name) and e.args[1].id == "str":
+                x, t = self.tx(e.args[0])
+                if t == "pathlike": return "(pathlike_is_str %s)" % x, "bool"
+                if t == "str": return "true", "bool"
+                bad(e, "isinstance(.., str) of a value of type %s" % (t,))
+            if f.id == "Path" and len(e.args) == 1 and not e.keywords:
+                x, t = self.tx(e.args[0])
+                if t == "pathlike": return "(pathlike_to_path %s)" % x, "pathlike"
+                bad(e, "Path() of a value of type %s" % (t,))
+            if f.id in g.handlers:
+                info = g.handlers[f.id]
+                args = self.bind_args(e, [n for n, _ in info["params"]], f.id)
+                if args is None: return self.do_raise(e, "TypeError"), "raises"
+                terms = []
+                for n, ty in info["params"]:
+                    if n in args: terms.append(self.coerce(args[n], ty))
+                    elif n in info["defaults"]: terms.append(self.default_term(info["defaults"][n], ty))
+                    else: return self.do_raise(e, "TypeError"), "raises"
+                return "(H_%s %s)" % (f.id, " ".join(terms)), "handler"
+            if f.id == ROUTER_CLASS and not e.args and not e.keywords:
+                self.need("router")
+                return "(@nil (MwGen.py_Route REQ RX))", ROUTES_T
+            if f.id in self.env and isinstance(self.env[f.id], tuple) and self.env[f.id][0] == "lfun":
+                bad(e, "call of a local function that can raise inside an expression (bind its result to a variable)")
             if f.id in ORACLES: bad(e, "call of the context builder %s outside `x = %s(..)`" % (f.id, f.id))
             if f.id == "set" and len(e.args) == 1 and not e.keywords:
                 x, t = self.tx(e.args[0])
@@ -421,6 +513,10 @@ class W(Fn):
             key = dotted(f)
             if key in ENV_CALLS and key.split(".")[0] not in self.env and not e.args and not e.keywords: return ENV_CALLS[key]
             recv, rt = self.tx(f.value)
+            if rt == "str" and f.attr in ("startswith", "endswith", "rstrip") and not e.keywords: return Fn.expr(self, e), Fn.typeof(self, e)
+            if rt == "pathlike" and f.attr in PATH_METHODS and not e.args and not e.keywords:
+                self.need(PATH_METHODS[f.attr])
+                return "(%s %s)" % (PATH_METHODS[f.attr], recv), "bool"
             if rt in DICT_VIEWS and f.attr == "get" and not e.keywords and 1 <= len(e.args) <= 2 and isinstance(e.args[0], ast.Constant):
                 view = DICT_VIEWS[rt].get(e.args[0].value)
                 if not view: bad(e, "key outside the typed view of %s" % rt)
@@ -437,6 +533,10 @@ class W(Fn):
         bad(e, "call")
 
     def default_term(self, d, t):
+        if isinstance(d, ast.Constant) and isinstance(d.value, float) and t == "Q":
+            import fractions
+            fr = fractions.Fraction(repr(d.value))       # the decimal literal, exactly
+            return "(%d # %d)%%Q" % (fr.numerator, fr.denominator)
         if isinstance(d, ast.Call) and ast.unparse(d) == "field(default_factory=list)" and isinstance(t, tuple) and t[0] == "list": return "[]"
         if isinstance(d, ast.Constant) and not isinstance(d.value, float): return self.coerce(d, t)
         bad(d, "default value outside the subset")
@@ -474,6 +574,12 @@ class W(Fn):
            and c.comparators[0].value is None and isinstance(c.left, ast.Name):
             n = c.left.id
             if n in self.env and n not in self.narrow and is_opt(self.env[n]): return n, self.env[n][1], "Some %s"
+        if isinstance(c, ast.Compare) and len(c.ops) == 1 and isinstance(c.ops[0], ast.IsNot) and isinstance(c.comparators[0], ast.Constant) \
+           and c.comparators[0].value is None and isinstance(c.left, ast.Attribute) and dotted(c.left) is not None and dotted(c.left) not in self.narrow:
+            # a field of an (immutable) record reached from a local: narrowed under its dotted name until the local is rebound
+            try: _, ty = self.tx(c.left)
+            except Untranslatable: ty = None
+            if is_opt(ty) and dotted(c.left).split(".")[0] in self.env: return dotted(c.left), ty[1], "Some %s"
         if isinstance(c, ast.Name) and c.id in self.env and c.id not in self.narrow and is_opt(self.env[c.id]):
             p = self.env[c.id][1]
             if self.always_true(p): return c.id, p, "Some %s"
@@ -492,12 +598,13 @@ class W(Fn):
             n = self.narrowable(c)
             if n:
                 name, pay, pat = n
-                v = self.fresh(name)
+                v = self.fresh(name.replace(".", "_"))
+                scrut = name if "." not in name else self.expr(c.left)
                 saved = dict(self.narrow)
                 self.narrow[name] = (v, pay)
                 try: body = go(i + 1)
                 finally: self.narrow = saved
-                return "(match %s with %s => %s | _ => %s end)" % (name, pat % v, body, els())
+                return "(match %s with %s => %s | _ => %s end)" % (scrut, pat % v, body, els())
             ctext = self.cond(c)
             body = go(i + 1)
             return "(if %s then %s else %s)" % (ctext, body, els())
@@ -516,6 +623,12 @@ class W(Fn):
                 except Untranslatable: t = None
                 if t in DICT_VIEWS:
                     if conditional: bad(n, "d[key] under a condition inside an expression")
+                    found.append(n); return
+            if isinstance(n, ast.Call) and isinstance(n.func, ast.Attribute) and n.func.attr in PATH_METHODS and not n.args and not n.keywords:
+                try: t = self.typeof(n.func.value)
+                except Untranslatable: t = None
+                if t == ("opt", "pathlike"):          # None has no such method: AttributeError
+                    if conditional: bad(n, "method call on an Optional value under a condition inside an expression")
                     found.append(n); return
             if isinstance(n, (ast.IfExp, ast.ListComp, ast.GeneratorExp, ast.Lambda)):
                 for c in ast.iter_child_nodes(n): walk(c, True)
@@ -541,9 +654,13 @@ class W(Fn):
                 if nt is None: bad(node, "first binding of %s is None without an annotation" % name)
                 self.env[name] = nt
             else: self.env[name] = ty
-        self.narrow.pop(name, None)
+        self.unnarrow([name])
         if ty == "none" and is_opt(self.env[name]): term = "(@None %s)" % ctype(self.env[name][1])     # typed, also when never read
         return term
+
+    def unnarrow(self, names):
+        for key in list(self.narrow):
+            if key.split(".")[0] in names: del self.narrow[key]
 
     def block(self, stmts, k, kc=None):
         if not stmts: return k
@@ -555,30 +672,47 @@ class W(Fn):
         if isinstance(s, (ast.Assign, ast.AnnAssign, ast.Return, ast.Expr, ast.If, ast.For)):
             found = self.raising_subscripts(s)
             if found:
-                if isinstance(s, (ast.If, ast.For)): bad(s, "d[key] in a test / iterable")
+                if isinstance(s, ast.For): bad(s, "raising operand in an iterable")
                 c = found[0]
-                view = DICT_VIEWS[self.typeof(c.value)].get(c.slice.value)
-                if not view: bad(c, "key outside the typed view")
                 v = self.fresh("v")
-                scrut = "(%s %s)" % (view[0], self.expr(c.value))
+                if isinstance(c, ast.Subscript):
+                    view = DICT_VIEWS[self.typeof(c.value)].get(c.slice.value)
+                    if not view: bad(c, "key outside the typed view")
+                    scrut, pat, pre, vt, exc = "(%s %s)" % (view[0], self.expr(c.value)), v, "", view[1], "KeyError"
+                else:
+                    self.need(PATH_METHODS[c.func.attr])
+                    v0 = self.fresh("p")
+                    scrut, pat, pre, vt, exc = self.expr(c.func.value), v0, "let %s := %s %s in " % (v, PATH_METHODS[c.func.attr], v0), "bool", "AttributeError"
                 memo = {}
                 s2 = copy.deepcopy(s, memo)
                 c2 = memo[id(c)]
                 class R(ast.NodeTransformer):
-                    def visit_Subscript(self_, n):
+                    def generic_visit(self_, n):
                         if n is c2: return ast.copy_location(ast.Name(id=v, ctx=ast.Load()), n)
-                        return self_.generic_visit(n)
+                        return ast.NodeTransformer.generic_visit(self_, n)
                 s2 = R().visit(s2)
-                self.env[v] = view[1]
+                self.env[v] = vt
                 ok = self.block([s2] + rest, k, kc)
-                return "(match %s with Some %s => %s | None => %s end)" % (scrut, v, ok, self.do_raise(c, "KeyError"))
+                return "(match %s with Some %s => %s%s | None => %s end)" % (scrut, pat, pre, ok, self.do_raise(c, exc))
         if isinstance(s, ast.ImportFrom):
+            homes = {CHAIN_CLASS: MW_FILE, ROUTER_CLASS: ROUTER_FILE, ROUTE_ENUM: ROUTER_FILE}
+            homes.update({n: MW_FILE for n in list(g.records) + list(g.mw)}); homes.update(HANDLERS)
             for a in s.names:
-                if s.level < 1 or a.asname is not None or not (a.name in g.records or a.name in g.mw or a.name == CHAIN_CLASS):
-                    bad(s, "import outside the subset")
+                if s.level < 1 or a.asname is not None: bad(s, "import outside the subset")
+                if a.name in TYPE_ONLY_IMPORTS: continue           # used in annotations only (a call or attribute of it is refused anyway)
+                if a.name not in homes: bad(s, "import outside the subset")
                 src = (s.module or "").split(".")
-                if src[-1:] != [os.path.basename(MW_FILE)[:-3]]: bad(s, "import of %s from another module" % a.name)
+                if src[-1:] != [os.path.basename(homes[a.name])[:-3]]: bad(s, "import of %s from another module" % a.name)
             return self.block(rest, k, kc)
+        if isinstance(s, ast.FunctionDef): return self.local_def(s, rest, k, kc)
+        if isinstance(s, ast.Assert):
+            if s.msg is not None and not safe_arg(s.msg): bad(s, "assert message")
+            return self.branch(s.test, lambda: self.block(rest, k, kc), lambda: self.do_raise(s, "AssertionError"))
+        if isinstance(s, ast.Raise):
+            e = s.exc
+            if not (isinstance(e, ast.Call) and isinstance(e.func, ast.Name) and not e.keywords and len(e.args) <= 1 and all(safe_arg(a) for a in e.args)) or s.cause is not None:
+                bad(s, "raise form")
+            return self.do_raise(s, e.func.id)
         if isinstance(s, ast.AnnAssign):
             if s.value is None or not isinstance(s.target, ast.Name): bad(s, "annotated assignment form")
             declared = annot_type(s.annotation, ASPEC, g.ctx)     # None: no translatable annotation (e.g. list[Any]): inferred
@@ -608,6 +742,22 @@ class W(Fn):
                     if not compat(et, t[1]): bad(s, "append of a %s to a list of %s" % (et, t[1]))
                     if t[1] == "?": self.env[name] = ("list", et)
                     return "(let %s := %s ++ [%s] in %s)" % (name, name, x, self.block(rest, k, kc))
+                if t == ROUTES_T and m == "add_route":
+                    sig = g.add_route_sig
+                    args = self.bind_args(c, [p0 for p0, _ in sig], "add_route")
+                    if args is None: bad(s, "unknown keyword of add_route")
+                    pat = self.coerce(args["pattern"], "str") if "pattern" in args else bad(s, "add_route without pattern")
+                    h, ht = self.tx(args["handler"]) if "handler" in args else bad(s, "add_route without handler")
+                    if ht != HANDLE_T: bad(s, "add_route of something that is not a handler's handle method")
+                    rty = args.get("route_type", sig[2][1])
+                    if rty is None: bad(s, "add_route without route_type")
+                    ty, tt = self.tx(rty)
+                    if tt != ("enum", ROUTE_ENUM): bad(s, "route_type")
+                    if not self.may_raise: raise Raises("add_route can raise")
+                    self.need("router"); self.need("re_compile")
+                    r = self.fresh("r")
+                    return "(match MwGen.gen_router_add_route REQ RX re_compile %s %s %s %s with Ok %s => let %s := %s in %s | Err k__ m__ => Err k__ m__ | OutOfModel => OutOfModel end)" % (
+                        name, pat, h, ty, r, name, r, self.block(rest, k, kc))
                 if t == "mwkind" and not c.args and not c.keywords and isinstance(c.func.value, ast.Name):
                     cls = self.mw_class_of.get(name)
                     if cls is None: bad(s, "method call on a middleware object of unknown class")
@@ -617,7 +767,17 @@ class W(Fn):
                     return "(let effects__ := effects__ ++ [EffCall %s \"%s\"%%string] in %s)" % (name, m, self.block(rest, k, kc))
             bad(s, "expression statement")
         if isinstance(s, ast.If):
+            t0 = s.test
+            if isinstance(t0, ast.Compare) and len(t0.ops) == 1 and isinstance(t0.ops[0], ast.Is) and isinstance(t0.comparators[0], ast.Constant) \
+               and t0.comparators[0].value is None and not s.orelse and s.body and isinstance(s.body[-1], (ast.Raise, ast.Return)):
+                pos = ast.copy_location(ast.Compare(left=t0.left, ops=[ast.IsNot()], comparators=t0.comparators), t0)
+                if self.narrowable(pos):      # the rest of the block runs with X present
+                    return self.branch(pos, lambda: self.block(rest, k, kc), lambda: self.block(s.body, "FALLTHROUGH__", kc))
+            # a variable rebound in a branch is not narrowed in what follows (the continuation is translated once, here)
+            saved_narrow = dict(self.narrow)
+            self.unnarrow(stored_names(s))
             after = self.block(rest, k, kc)
+            self.narrow = saved_narrow
             text = ast.unparse(s.test)
             def arm(body, val):
                 def f():
@@ -632,7 +792,12 @@ class W(Fn):
             it, t = self.tx(s.iter)
             return self.for_loop(s, it, t, rest, k, kc)
         if isinstance(s, ast.Return):
-            v = "tt" if s.value is None else self.coerce(s.value, self.ret_type)
+            if self.spec.get("self_state"): bad(s, "return in a method translated over its record")
+            if s.value is None: v = "tt"
+            else:
+                term, ty = self.tx(s.value)
+                if ty == "raises": return term
+                v = self.fit(s, term, ty, self.ret_type)
             return "(Ok %s)" % v if self.may_raise else v
         bad(s, "statement")
 
@@ -667,6 +832,15 @@ class W(Fn):
                 term = self.bind(s, name, r, info["ret"], declared)
                 return "(match %s %s with Ok %s => let %s := %s in %s | Err k__ m__ => Err k__ m__ | OutOfModel => OutOfModel end)" % (
                     info["name"], self.expr(val.func.value), r, name, term, self.block(rest, k, kc))
+        if isinstance(val, ast.Call) and isinstance(val.func, ast.Name) and isinstance(self.env.get(val.func.id), tuple) and self.env[val.func.id][0] == "lfun" and not awaited:
+            _, ptys, rty = self.env[val.func.id]
+            if val.keywords or len(val.args) != len(ptys): bad(s, "arguments of a local function")
+            if not self.may_raise: raise Raises("call of %s" % val.func.id)
+            args = " ".join(self.coerce(a, pt) for a, pt in zip(val.args, ptys))
+            r = self.fresh("r")
+            term = self.bind(s, name, r, rty, declared)
+            return "(match %s %s with Ok %s => let %s := %s in %s | Err k__ m__ => Err k__ m__ | OutOfModel => OutOfModel end)" % (
+                val.func.id, args, r, name, term, self.block(rest, k, kc))
         if isinstance(val, ast.Call) and isinstance(val.func, ast.Name) and val.func.id in ORACLES and val.func.id not in self.env and not awaited:
             if kc is not None: bad(s, "effect inside a loop")
             term, ty = self.oracle_call(val)
@@ -680,6 +854,36 @@ class W(Fn):
         elif name in self.mw_class_of: del self.mw_class_of[name]
         term = self.bind(s, name, term, ty, declared)
         return "(let %s := %s in %s)" % (name, term, self.block(rest, k, kc))
+
+    def local_def(self, s, rest, k, kc):
+        """`def f(x: T) -> R:` inside a translated function: a local Gallina function returning `res R` (a closure: the
+        variables it reads must not be assigned after the def)"""
+        a = s.args
+        if s.decorator_list or a.vararg or a.kwarg or a.kwonlyargs or a.posonlyargs or a.defaults or kc is not None: bad(s, "local function form")
+        self.check_name(s, s.name)
+        params = []
+        for x in a.args:
+            ty = atype(self.g, x.annotation)
+            if ty is None: bad(s, "parameter %s of the local function has no translatable annotation" % x.arg)
+            self.check_name(s, x.arg)
+            if x.arg in self.env: bad(s, "parameter %s shadows a local" % x.arg)
+            params.append((x.arg, ty))
+        rty = atype(self.g, s.returns)
+        if rty is None: bad(s, "return annotation of the local function")
+        for n in ast.walk(self.node):
+            if isinstance(n, ast.Name) and isinstance(n.ctx, (ast.Store, ast.Del)) and n.lineno > s.lineno and n.id in free_names(s.body) and n.id in self.env:
+                bad(n, "%s is assigned after the local function that reads it" % n.id)
+        saved = (self.ret_type, self.may_raise, dict(self.narrow))
+        self.ret_type, self.may_raise, self.narrow = rty, True, {}
+        for n, ty in params: self.env[n] = ty
+        try:
+            body = self.block(list(s.body), "FALLTHROUGH__")
+        finally:
+            self.ret_type, self.may_raise, self.narrow = saved
+            for n, _ in params: self.env.pop(n, None)
+        if "FALLTHROUGH__" in body: bad(s, "the local function can fall off its end")
+        self.env[s.name] = ("lfun", [ty for _, ty in params], rty)
+        return "(let %s := (fun %s => %s) in %s)" % (s.name, " ".join("(%s : %s)" % (n, ctype(ty)) for n, ty in params), body, self.block(rest, k, kc))
 
     def oracle_call(self, c):
         name = c.func.id
@@ -743,7 +947,7 @@ class W(Fn):
         for st in loop.body:
             reb |= stored_names(st)
             for n in ast.walk(st):
-                if isinstance(n, ast.Call) and isinstance(n.func, ast.Attribute) and n.func.attr == "append" and isinstance(n.func.value, ast.Name):
+                if isinstance(n, ast.Call) and isinstance(n.func, ast.Attribute) and n.func.attr in ("append", "add_route") and isinstance(n.func.value, ast.Name):
                     reb.add(n.func.value.id)
         if loop.target.id in reb: bad(loop, "loop variable reassigned")
         return sorted(n for n in reb if n in self.env and n != loop.target.id)
@@ -890,6 +1094,125 @@ def gen_config(g, reads):
         g.methods[(CONFIG_CLASS, m.name)] = dict(name="gen_" + m.name, ret=ret, may_raise=may_raise)
         rt = "res %s" % ctype(ret) if may_raise else ctype(ret)
         out.append("Definition gen_%s (self : py_%s) : %s :=\n  %s.\n" % (m.name, CONFIG_CLASS, rt, body))
+    return "\n".join(out)
+
+# ------------------------------------------------------------------ C17: locations -> router
+EXTRA_PARAMS = [("re_compile", "(str -> option RX)"), ("handle_of", "(handler -> REQ -> ServerProto.resp)"),
+                ("path_exists", "(pathlike -> bool)"), ("path_is_dir", "(pathlike -> bool)")]
+
+def gen_locations_pre(g):
+    """HandlerType, LocationConfig, `Inductive handler` (one constructor per handler class: its __init__ arguments), the
+    Router's shape (checked against server/router.py; the record and add_route are MwGen's)"""
+    tree = g.tree(LOCATION_FILE)
+    out = [py2coq_mw.gen_enum(g.ctx, dict(cls=LOCATION_ENUM), tree)]
+    py2coq_mw.gen_enum(g.ctx, dict(cls=ROUTE_ENUM), g.tree(ROUTER_FILE))          # members only: the type is MwGen.py_RouteType
+    c = class_node(tree, LOCATION_CLASS)
+    if [ast.unparse(d) for d in c.decorator_list] != ["dataclass"] or c.bases: raise Untranslatable("%s is not a plain dataclass" % LOCATION_CLASS)
+    fields = []
+    for s in c.body:
+        if is_doc(s): continue
+        if isinstance(s, ast.AnnAssign) and isinstance(s.target, ast.Name):
+            ty = atype(g, s.annotation)
+            if ty is None: bad(s, "field annotation")
+            fields.append((s.target.id, ty))
+        elif isinstance(s, ast.FunctionDef) and s.name not in ("__bool__", "__len__", "__getattribute__", "__getattr__", "__setattr__", "__init__"): continue
+        else: bad(s, "%s body" % LOCATION_CLASS)
+    g.ctx.classes[LOCATION_CLASS] = dict(fields=fields, tparams=[])
+    out.append(record_text(LOCATION_CLASS, [], fields))
+    cons = []
+    for name, rel in HANDLERS.items():
+        hc = class_node(g.tree(rel), name)
+        hinit, pos, defaults = init_params(g, hc, name)
+        params = []
+        for a in pos:
+            ty = atype(g, a.annotation)
+            if ty is None: raise Untranslatable("%s.__init__: parameter %s has no translatable annotation" % (name, a.arg))
+            params.append((a.arg, ty))
+        hm = [m for m in hc.body if isinstance(m, ast.FunctionDef) and m.name == "handle"]
+        if len(hm) != 1 or [x.arg for x in hm[0].args.args] != ["self", "request"]: raise Untranslatable("%s.handle(self, request) not found" % name)
+        for fld, rhs in KEPT_FIELDS.get(name, {}).items():
+            stores = [n for n in ast.walk(hc) if isinstance(n, ast.Attribute) and isinstance(n.ctx, (ast.Store, ast.Del)) and n.attr == fld]
+            asg = [x for x in ast.walk(hinit) if isinstance(x, (ast.Assign, ast.AnnAssign)) and x.value is not None and
+                   any(isinstance(tg, ast.Attribute) and tg.attr == fld and isinstance(tg.value, ast.Name) and tg.value.id == "self"
+                       for tg in (x.targets if isinstance(x, ast.Assign) else [x.target]))]
+            if len(stores) != 1 or len(asg) != 1 or ast.unparse(asg[0].value) != rhs or asg[0] not in hinit.body:
+                raise Untranslatable("%s does not keep %s as %s" % (name, fld, rhs))
+        g.handlers[name] = dict(params=params, defaults=defaults)
+        cons.append("| H_%s%s" % (name, "".join(" (%s : %s)" % (n, ctype(ty)) for n, ty in params)))
+    out.append("(* a handler object: its class and the arguments its constructor was given *)\nInductive handler : Type :=\n%s.\n" % "\n".join(cons))
+    out.append("Definition routes (REQ RX : Type) : Type := list (MwGen.py_Route REQ RX).\n")
+    rc = class_node(g.tree(ROUTER_FILE), ROUTER_CLASS)
+    init, pos, _ = init_params(g, rc, ROUTER_CLASS)
+    inits = {}
+    for s in init.body:
+        if is_doc(s): continue
+        tgt = s.target if isinstance(s, ast.AnnAssign) else (s.targets[0] if isinstance(s, ast.Assign) and len(s.targets) == 1 else None)
+        if tgt is None or not (isinstance(tgt, ast.Attribute) and isinstance(tgt.value, ast.Name) and tgt.value.id == "self") or s.value is None: bad(s, "Router.__init__ statement")
+        inits[tgt.attr] = ast.unparse(s.value)
+    if pos or inits != {"routes": "[]", "default_handler": "None"}: raise Untranslatable("Router() is not the router without routes and without default handler: %s" % inits)
+    ar = find_function(g.tree(ROUTER_FILE), ROUTER_CLASS, "add_route")
+    aa = ar.args
+    names = [x.arg for x in aa.args[1:]]
+    if names != ["pattern", "handler", "route_type"] or aa.vararg or aa.kwarg or aa.kwonlyargs: raise Untranslatable("Router.add_route signature")
+    dfl = dict(zip(names[len(names) - len(aa.defaults):], aa.defaults))
+    g.add_route_sig = [(n, dfl.get(n)) for n in names]
+    return "\n".join(out)
+
+class SelfFields(ast.NodeTransformer):
+    def visit_Attribute(self, n):
+        if isinstance(n.value, ast.Name) and n.value.id == "self":
+            return ast.copy_location(ast.Name(id="self_" + n.attr, ctx=n.ctx), n)
+        return self.generic_visit(n)
+
+def gen_method(g, cls, m, name, self_state=False):
+    """a method of a generated record.  self_state: the method assigns fields - they are locals bound from `self`, the result
+    is the record rebuilt from them (py2coq_mw.ObjFn's scheme)"""
+    a = m.args
+    if a.vararg or a.kwarg or a.kwonlyargs or a.posonlyargs or m.decorator_list or isinstance(m, ast.AsyncFunctionDef) or a.args[0].arg != "self":
+        raise Untranslatable("%s.%s: signature" % (cls, m.name))
+    params = []
+    for x in a.args[1:]:
+        ty = atype(g, x.annotation)
+        if ty is None: raise Untranslatable("%s.%s: parameter %s has no translatable annotation" % (cls, m.name, x.arg))
+        params.append((x.arg, ty))
+    ret = atype(g, m.returns)
+    if ret is None: raise Untranslatable("%s.%s: return annotation" % (cls, m.name))
+    fields = g.ctx.classes[cls]["fields"]
+    for may_raise in (False, True):
+        w = W(dict(name=name, ret_type=ret, may_raise=may_raise, self_state=self_state), m, g)
+        for n, ty in params: w.check_name(m, n); w.env[n] = ty
+        stmts = copy.deepcopy(m.body)
+        if self_state:
+            if ret != "none": raise Untranslatable("%s.%s returns a value" % (cls, m.name))
+            stmts = [SelfFields().visit(s) for s in stmts]
+            for f, ty in fields: w.env["self_" + f] = ty
+            rec = "(mk_py_%s %s)" % (cls, " ".join("self_" + f for f, _ in fields))
+            k = "(Ok %s)" % rec if may_raise else rec
+        else:
+            w.env["self"] = ("obj", cls)
+            k = "FALLTHROUGH__"
+        try: body = w.block(stmts, k)
+        except Raises:
+            if may_raise: raise
+            continue
+        break
+    if "FALLTHROUGH__" in body: raise Untranslatable("%s: control can fall off the end" % m.name)
+    if self_state:
+        for f, _ in reversed(fields): body = "(let self_%s := %s_%s self in %s)" % (f, cls, f, body)
+        rt = "py_" + cls
+    else: rt = ctype(ret)
+    if may_raise: rt = "res (%s)" % rt
+    poly = any(x in w.extra for x in ("router", "re_compile", "handle_of"))
+    binders = (["(REQ RX : Type)"] if poly else []) + ["(%s : %s)" % (n, ty) for n, ty in EXTRA_PARAMS if n in w.extra] \
+              + ["(self : py_%s)" % cls] + ["(%s : %s)" % (n, ctype(ty)) for n, ty in params]
+    g.methods[(cls, m.name)] = dict(name=name, ret=ret, may_raise=may_raise, extra=list(w.extra))
+    return "Definition %s %s\n  : %s :=\n  %s.\n" % (name, " ".join(binders), rt, body)
+
+def gen_locations(g):
+    out = ["(* %s: the part of %s.__post_init__ before any other method runs on the object - prefix normalisation, the\n   requirements of the handler type (pathlib's exists / is_dir: oracle arguments) *)\n" % (LOCATION_FILE, LOCATION_CLASS)
+           + gen_method(g, LOCATION_CLASS, find_function(g.tree(LOCATION_FILE), LOCATION_CLASS, "__post_init__"), "gen_location_post_init", self_state=True)]
+    out.append("(* %s: %s.get_location_router - one handler per location (create_handler), one PREFIX route per location *)\n" % (CONFIG_FILE, CONFIG_CLASS)
+               + gen_method(g, CONFIG_CLASS, find_function(g.tree(CONFIG_FILE), CONFIG_CLASS, "get_location_router"), "gen_get_location_router"))
     return "\n".join(out)
 
 # ------------------------------------------------------------------ server/server.py: start_server
@@ -1150,6 +1473,7 @@ HEADER = """(* GENERATED by /verif/translate/py2coq_wiring.py from /repo/src/nau
    server/middleware.py, __main__.py) - do not edit *)
 From Coq Require Import List NArith ZArith QArith Bool String.
 From NV Require Import Prelude.Str Prelude.Res Equiv.WiringGlue.
+From NV Require Model.ServerProto Gen.MwGen.
 Import ListNotations.
 Open Scope list_scope.
 
@@ -1164,7 +1488,7 @@ def main(out_path):
     g = G()
     check_protocol_classes(g)
     check_oracles(g)
-    chunks = [HEADER, gen_middleware_module(g), "\n"]
+    chunks = [HEADER, gen_middleware_module(g), "\n", gen_locations_pre(g), "\n"]
     A = analyse_start(g)
     cfg_params = [p for p in A["params"] if A["annots"][p] is not None and ast.unparse(A["annots"][p]) == CONFIG_CLASS]
     # which ServerConfig fields the slices read (the record has exactly those)
@@ -1192,7 +1516,8 @@ def main(out_path):
     _, wnames, _ = slice_inputs(g, A, probe_stmts)
     S = serve_slice(g, A, wnames, cfg_params)
     for c in S["cfg_inputs"]: reads |= attr_reads(S["sl"], c)
-    chunks += [gen_config(g, reads), "\n"]
+    reads |= attr_reads(find_function(g.tree(CONFIG_FILE), CONFIG_CLASS, "get_location_router").body, "self")
+    chunks += [gen_config(g, reads), "\n", gen_locations(g), "\n"]
     w1, t1, i1 = translate_slice(g, A, A["ci"], "gen_setup")
     w2, t2, i2 = translate_slice(g, A, A["li"], "gen_start")
     frame_checks(g, A, w2, i2)
